@@ -42,23 +42,29 @@ func runC07(c *Ctx) {
 	if ov == nil || gf == nil {
 		c.Incomplete("label-block-filter-covers-series-filter", rel+".(*bucketBlock).overlapsClosedInterval", "", "overlapsClosedInterval or getFor not found")
 	} else {
-		atoms := func(e ast.Expr, text string) string {
-			t := strings.ReplaceAll(text, " ", "")
-			switch {
-			case strings.HasSuffix(t, ".MinTime"):
-				return "bmin"
-			case strings.HasSuffix(t, ".MaxTime"):
-				return "bmax"
-			case t == "mint" || t == "maxt":
-				return t
+		// both functions take (mint, maxt) as their first two parameters
+		atomsFor := func(fn *Fn) func(e ast.Expr, text string) string {
+			nm := namesOf(fn)
+			return func(e ast.Expr, text string) string {
+				t := strings.ReplaceAll(text, " ", "")
+				switch {
+				case strings.HasSuffix(t, ".MinTime"):
+					return "bmin"
+				case strings.HasSuffix(t, ".MaxTime"):
+					return "bmax"
+				case t == nm.P(0):
+					return "mint"
+				case t == nm.P(1):
+					return "maxt"
+				}
+				return ""
 			}
-			return ""
 		}
 		// getFor: the skip conditions of the block loop that mention the block's time range
 		var skips []ast.Expr
 		var early []ast.Expr
 		for _, st := range gf.Decl.Body.List {
-			if is, ok := st.(*ast.IfStmt); ok && is.Else == nil && terminates(is.Body.List) && mentions(canon(is.Cond), "mint") {
+			if is, ok := st.(*ast.IfStmt); ok && is.Else == nil && terminates(is.Body.List) && mentions(canon(is.Cond), namesOf(gf).P(0)) {
 				early = append(early, is.Cond)
 			}
 			rs, ok := st.(*ast.RangeStmt)
@@ -83,8 +89,8 @@ func runC07(c *Ctx) {
 		if len(skips) == 0 {
 			c.Incomplete("label-block-filter-covers-series-filter", rel+".(*bucketBlockSet).getFor", p.Pos(gf.Decl.Pos()), "no time-range skip condition found in the block loop")
 		} else {
-			xo := newE9(p, ov, atoms)
-			xg := newE9(p, gf, atoms)
+			xo := newE9(p, ov, atomsFor(ov))
+			xg := newE9(p, gf, atomsFor(gf))
 			var evalErr error
 			n, cx, err := e9Table([]string{"mint", "maxt", "bmin", "bmax"}, intRange(0, 3),
 				func(env map[string]int64) bool {
@@ -163,8 +169,8 @@ func runC07(c *Ctx) {
 					bad = "the time test is not applied to (req.Start, req.End): " + t
 				}
 			case strings.Contains(t, "matchRelabelLabels("):
-			case t == "!ok":
-				// result of FilterExtLabelsMatchers
+			case isNegatedIdent(is.Cond):
+				// `!ok` where ok is the second result of FilterExtLabelsMatchers
 				if id, isId := unparen(unparen(is.Cond).(*ast.UnaryExpr).X).(*ast.Ident); isId {
 					if d := singleDefTuple(fn, info, objOf(info, id)); d == nil || calleeOf(info, d) == nil || calleeOf(info, d).Name() != "FilterExtLabelsMatchers" {
 						bad = "a block is skipped on a condition that Series does not apply: " + t
